@@ -199,7 +199,8 @@ StepCdrop(s, e) ==
   ELSE
     LET r  == s.ch[c]
         s1 == Chk(s, r.addr = 0 \/ r.addr = e.addr, "C08", "child dropped at a different address")
-        s2 == Chk(s1, r.st = "fin" \/ s.indrop, DeliveryProp(s.kind),
+        \* try_join_all may cancel the remaining inputs once one of them has failed
+        s2 == Chk(s1, r.st = "fin" \/ s.indrop \/ (s.kind = "tja" /\ s.firstErr # 0), DeliveryProp(s.kind),
                   "a held child was discarded while the collection is alive")
     IN [s2 EXCEPT !.ch = [x \in DOMAIN @ \ {c} |-> @[x]]]
 
@@ -207,7 +208,7 @@ StepOdrop(s, e) ==
   LET t == <<e.c, e.k>> IN
   IF t \in s.out THEN [s EXCEPT !.out = @ \ {t}]
   ELSE IF t \in s.tok
-       THEN LET s1 == Chk(s, s.indrop, IF s.kind \in CollKinds THEN "C02" ELSE "C06",
+       THEN LET s1 == Chk(s, s.indrop \/ (s.kind = "tja" /\ s.firstErr # 0), IF s.kind \in CollKinds THEN "C02" ELSE "C06",
                           "an output that was never handed out was destroyed while the collection is alive")
             IN [s1 EXCEPT !.tok = @ \ {t}]
        ELSE V(s, "C06", "output dropped twice (or never produced)")
